@@ -31,6 +31,7 @@ LEVEL_TEXT = ('Bounded-exhaustive: every tree shape up to the node bound, every 
               'pruning invariance is additionally checked with the library alone.')
 LEVEL_NOTE = 'trusted: mc/ref/cell.py (recursive effective-level formulation, pinned by the main-net block root hash which exercises masks 0/1 and a Merkle update)'
 TECHNIQUE = 'small-scope exhaustive enumeration of exotic-cell trees and prune sets against a reference model'
+RULE += " Sixth session - pair histories: for every base shape, every ORDERED pair of distinct trees of its family (the plain tree, the proof of every prune set, the Merkle update of every prune set against the full tree) x routes {BoC parse, Builder} for each: the first tree is realised and kept alive, then the second; both must be the reference's cells (nothing carried over between parses / constructions)."
 RULE += " Merkle updates: all 64 (old-side mask, new-side mask) pairs of raw pruned cells below 0..3 Merkle proofs (the update's mask is (old | new) >> 1)."
 ASSUMPTIONS = ['hash/depth payloads of raw pruned cells are seed-derived filler', 'trees beyond the node bound and nesting beyond 3 layers are not explored']
 NOT_ASSERTED = ['rejection of malformed exotic cells (the property only demands that spec-valid cells can be built and report spec values)']
@@ -54,7 +55,7 @@ def selftest():
 
 def REQUIRED_COVER(tier):
     return ({f'pruned-mask:{m}' for m in range(1, 8)} | {f'ancestor-mask:{m}' for m in range(1, 8)} |
-            {'type:lib', 'type:mproof', 'type:mupdate', 'layers:3', 'route:boc', 'route:boc+hashes', 'route:derived', 'update:sides-differ', 'update:sides-equal', 'twin'})
+            {'type:lib', 'type:mproof', 'type:mupdate', 'layers:3', 'route:boc', 'route:boc+hashes', 'route:derived', 'update:sides-differ', 'update:sides-equal', 'twin', 'pair-history'})
 
 
 # ------------------------------------------------------------------ terms
@@ -460,6 +461,101 @@ def shard_layer3(rec, nmax, part, parts):
     rec.sample({'layer3': 'three nested proofs, inner tree cells pruned at levels 1..3 -> masks with gaps by construction'})
 
 
+# ------------------------------------------------------------------ build / parse histories (sixth session)
+def _realise(rc, route):
+    """build rc with the real code: 'boc' = parse reference-encoded bytes, 'builder' = Builder(type_) bottom-up; returns {key: lib cell}"""
+    from pytoniq_core.boc import Cell
+    if route == 'boc':
+        root = Cell.one_from_boc(RB.encode([rc]))
+        libs = {}
+        stack = [(root, rc)]
+        while stack:
+            lc, r = stack.pop()
+            libs[(r.hash(), r.special, r.bits)] = lc
+            if len(lc.refs) != len(r.refs):
+                raise AssertionError('parsed tree has another shape')
+            stack.extend(zip(lc.refs, r.refs))
+        return libs
+    libs = {}
+    to_lib(rc, libs, route)
+    return libs
+
+
+def _verify(libs, rc):
+    cells = all_cells(rc)
+    for k, lc in libs.items():
+        r = cells[k]
+        got, want = lib_levels(lc), ref_levels(r)
+        if got != want or lc.hash != r.hash() or lc.type_ != r.type:
+            return f'cell type {r.type} mask {r.mask} ({len(r.bits)} bits, {len(r.refs)} refs): lib type {lc.type_} mask {got[0]} depths {got[2]} vs ref depths {want[2]}'
+        if lc.calculate_representation_hash() != r.hash():
+            return f'cell type {r.type} mask {r.mask}: recomputed representation hash differs'
+    return None
+
+
+def family(shape):
+    """the trees that share cells of one base tree: the plain tree, every single-layer proof (every prune set), and the Merkle
+    updates (pruned old side, full new side)"""
+    shape = tuple(tuple(s) for s in shape)
+    fam = [('plain', shape_term(shape, [0] * len(shape)))]
+    for states in itertools.product((0, 1), repeat=len(shape)):
+        fam.append((f'proof{list(states)}', ('m', shape_term(shape, states))))
+    for states in itertools.product((0, 1), repeat=len(shape)):
+        if any(states):
+            fam.append((f'update{list(states)}', ('u', shape_term(shape, states), shape_term(shape, [0] * len(shape)))))
+    return fam
+
+
+def case_pair_history(rec, shape, ia, ib, ra, rb):
+    """tree A is realised (route ra) and KEPT ALIVE, then tree B of the same family (route rb): B, and afterwards A again, must be the
+    cells the reference defines - nothing may be carried over from one construction / parse to the next"""
+    rec.case('pair-history')
+    fam = family(shape)
+    (na, ta), (nb, tb) = fam[ia], fam[ib]
+    args = {'shape': [list(x) for x in shape], 'ia': ia, 'ib': ib, 'ra': ra, 'rb': rb}
+    a, b = ev(ta), ev(tb)
+    rec.state(('pair', tuple(tuple(x) for x in shape), ia, ib, ra, rb))
+    rec.nontriv(('pair', tuple(tuple(x) for x in shape), ia, ib, ra, rb))
+    try:
+        la = _realise(a, ra)
+        lb = _realise(b, rb)
+        rec.trans(len(la) + len(lb))
+        rec.trace(2)
+        bad = _verify(lb, b)
+        who = nb
+        if bad is None:
+            bad = _verify(la, a)
+            who = na + ' (re-inspected after the second tree was made)'
+    except Exception as e:
+        rec.violation(f'pair-history:raises:{ra}>{rb}', f'{na} via {ra}, kept alive, then {nb} via {rb} of shape {shape}: {exc_name(e)}: {e}', 'case_pair_history', args)
+        return
+    if bad:
+        rec.violation(f'pair-history:{ra}>{rb}', f'{na} via {ra}, kept alive, then {nb} via {rb} of shape {shape}: in {who}: {bad}', 'case_pair_history', args)
+        rec.outcome('DISAGREE')
+        return
+    rec.covered('pair-history')
+    rec.outcome('agree')
+
+
+def shard_pairs(rec, nmax, part, parts):
+    i = 0
+    for shape in base_shapes(nmax):
+        if len(shape) > nmax:
+            continue
+        n = len(family(shape))
+        for ia in range(n):
+            for ib in range(n):
+                if ia == ib:
+                    continue
+                for ra in ('boc', 'builder'):
+                    for rb in ('boc', 'builder'):
+                        i += 1
+                        if i % parts != part:
+                            continue
+                        case_pair_history(rec, shape, ia, ib, ra, rb)
+    rec.sample({'pair_history': 'proof[0,1,0] parsed from a BoC and kept alive, then the plain tree parsed; both verified'})
+
+
 def shards(tier, seed):
     nmax = 3 if tier == 'quick' else 4
     out = [{'fn': 'shard_raw', 'args': {}}]
@@ -474,4 +570,7 @@ def shards(tier, seed):
     if tier == 'thorough':
         for p in range(8):
             out.append({'fn': 'shard_layer1', 'args': {'nmax': 5, 'part': p, 'parts': 8}, 'prio': 1})
+    pp = 8 if tier == 'quick' else 32
+    for p in range(pp):
+        out.append({'fn': 'shard_pairs', 'args': {'nmax': 3 if tier == 'quick' else 4, 'part': p, 'parts': pp}, 'prio': 2})
     return out
